@@ -28,6 +28,14 @@ def gen_case(rng, opts=None):
     shape = opts.get("shape") or rng.choice(["flat", "flat", "chain", "assoc"])
     cfg = srvcase.gen_config(rng, {"shape": shape, "classes": False, "commits": False, "mappings": False,
                                    "strkeys": False, "integrity": True, "ntypes": opts.get("ntypes")})
+    if "p_revnames" in opts and rng.random() < opts["p_revnames"]:
+        # declaration order must not coincide with the alphabetical order of the type names
+        m = dict(zip(["Ta", "Tb", "Tc", "Td"], ["Tz", "Ty", "Tx", "Tw"]))
+        for t in cfg["types"]:
+            t["name"] = m[t["name"]]
+            t["fks"] = {a: m[p] for a, p in t["fks"].items()}
+            if t.get("ics"):
+                t["ics"] = [(a, m[p], form) for a, p, form in t["ics"]]
     pool = rng.sample([1, 2, 3, 4], rng.randint(2, 3))
     npolls = rng.randint(opts.get("minpolls", 2), opts.get("maxpolls", 5))
     polls, prev = [], None
